@@ -94,6 +94,15 @@ BUILT["C11"] = ("E2", "exploration", "deterministic simulation: advertised-proto
 BUILT["C12"] = ("E2", "exploration", "deterministic simulation: scripted transport listener events + application/behaviour external and peer address operations + real failing dials; reference fold after every step",
   "Swarm::listeners(), ListenerClosed.addresses, external_addresses() and the three helper structs (contents and 'changed' answers) equal the reference fold after every step",
   E2_NOTE, "5/C12")
+BUILT["C52"] = ("E2", "exploration", "deterministic simulation: real connection-limits behaviour inside a derived composite on 3-5 Swarms; invariant checked between single scheduler steps against the reference connection model",
+  "Small drawn limits for all six dimensions, fixed bypass sets, random dials/disconnects/resets/late and failing attempts: reference counts of non-bypassed pending/established connections never exceed the limits after any returned event",
+  E2_NOTE, "5/C52")
+BUILT["C53"] = ("E2", "exploration", "deterministic simulation: real allow/block-list behaviour in a derived composite; list changes interleaved with dials both ways; window oracle over the event history",
+  "No ConnectionEstablished for a peer between the return of block_peer/disallow_peer and its reversal (event sequence numbers), and no connection to a restricted peer survives quiescence; both list variants",
+  E2_NOTE, "5/C53")
+BUILT["C54"] = ("E2", "exploration", "deterministic simulation: real peer-store behaviour in a derived composite with real dial failures and connection establishments; bounded-capacity regime and exact reference-model regime",
+  "Capacities never exceeded after any step; without eviction: contents equal the reference map (automatic removal never touches explicitly added addresses) and the PeerAddressAdded/Removed event sequence equals the reference's",
+  E2_NOTE, "5/C52-54")
 NOT_YET = {}
 
 def main():
